@@ -560,7 +560,7 @@ class OpenPyTranslator(PyTranslator):
             base = fname.split(".")[-1]
             if (fname.split(".")[0] in ("np", "numpy", "math") or fname in FUNCS) and base in FUNCS and len(n.args) == 1 and not n.keywords:
                 return self.alg.func(base, self.expr(n.args[0], env))
-            if isinstance(n.func, ast.Attribute) and not fname.startswith(("np.", "numpy.", "math.")):
+            if isinstance(n.func, ast.Attribute) and not _is_module_path(n.func.value):
                 recv = self.expr(n.func.value, env)
                 args = [recv] + [self.expr(a, env) for a in n.args if not isinstance(a, ast.Starred)]
                 fn_name = f".{n.func.attr}()"
@@ -679,6 +679,13 @@ class OpenPyTranslator(PyTranslator):
                         env.pop(k, None)
         elif isinstance(s, ast.Return) and s.value is not None:
             self.appends.setdefault("<return>", []).append(self.expr(s.value, env))
+
+
+def _is_module_path(n) -> bool:
+    """np, np.linalg, math, ... (a dotted path rooted at a well-known module name)"""
+    while isinstance(n, ast.Attribute):
+        n = n.value
+    return isinstance(n, ast.Name) and n.id in ("np", "numpy", "math", "scipy", "sp", "os", "sys", "warnings", "spglib", "phonoc", "h5py", "yaml")
 
 
 def open_expr(text: str, rename: dict | None = None, names: dict | None = None):
